@@ -471,8 +471,17 @@ class Inliner:
             if dotted:
                 r = self.ct.repo.resolve_dotted(dotted)
                 if r is not None and isinstance(r[1], ast.FunctionDef) and not isinstance(r[1], ast.AsyncFunctionDef):
-                    # only helpers of the same module are inlined (other modules' names would need re-resolution)
-                    return None
+                    # a helper imported from another module of the package: its free names must mean the same thing here
+                    rm, fn = r
+                    bound = {a.arg for a in fn.args.args + fn.args.kwonlyargs} | _assigned_names(fn.body)
+                    import builtins as _b
+                    for n in ast.walk(fn):
+                        if isinstance(n, ast.Name) and isinstance(n.ctx, ast.Load) and n.id not in bound and not hasattr(_b, n.id):
+                            here = module.imports.get(n.id)
+                            there = rm.imports.get(n.id)
+                            if here is None or here != there:
+                                return None
+                    return None, fn, None
         return None
 
     def _inlinable(self, fn: ast.FunctionDef) -> bool:
